@@ -1,3 +1,42 @@
-"""Property -> obligation cone (DESIGN.md 6.1).  Only properties claimed in MANIFEST.json appear here."""
+"""Property -> obligation cone (DESIGN.md 6.1).  Only properties claimed in MANIFEST.json appear here.
 
-PROPERTIES = {}
+groups: obligation groups run by `./check <id>`; groups establishing contracts that these assume through
+call-by-contract summaries are added automatically (Group.assumes)."""
+
+PROPERTIES = {
+    'C04': {
+        'groups': ['SL', 'G2', 'G2e'],
+        'level': 'other',
+        'explanation': 'Contracts on AnsiString._slice_val_to_idx (U-mode: unbounded, all integers and text lengths) and '
+                       'AnsiString.__getitem__ (B-mode: bounded-symbolic in the number of change points/markers; text '
+                       'length, keys, bounds, setting texts and identities symbolic), discharged by z3 on verification '
+                       'conditions generated from the AST of /repo/src on every run.  Clauses: selected text, '
+                       'per-character setting texts in order (Skolemised over all positions), result well-formed and closed '
+                       'at its end, IndexError exactly when out of range, source unchanged, result shares no container.',
+        'trusted_base': ['representation invariant wf (contracts/spec.py) over-approximates reachable values'],
+        'assumptions': ['clip(), iteration and the AnsiStr wrappers are checked as delegations in group G3 when present'],
+    },
+    'C06': {
+        'groups': ['SL', 'F3', 'N1'],
+        'level': 'other',
+        'explanation': 'Contract on AnsiString.apply_formatting over bounded-symbolic tables: text unchanged, no-op cases, '
+                       'characters outside the slice-normalised range keep their settings in order, inside they gain exactly '
+                       'the given settings (old ones keep their relative order), topmost=False puts the new settings below '
+                       'everything already there, topmost=True above until another setting starts; invariant preserved; '
+                       'settings argument unmodified.  _slice_val_to_idx is verified unbounded and used modularly.',
+        'trusted_base': ['representation invariant wf (contracts/spec.py) over-approximates reachable values'],
+        'assumptions': ['settings are given as AnsiSetting objects in this group; the other spellings are C14'],
+    },
+    'C07': {
+        'groups': ['SL', 'M2', 'M1'],
+        'level': 'other',
+        'explanation': 'Contract on AnsiString.remove_formatting over bounded-symbolic tables whose setting texts are str(code) '
+                       'for symbolic known SGR codes: inside the range the selected settings (by value; None = all) are gone and '
+                       'the rest keeps its order; outside the range the same settings with the same relative order of every two '
+                       'settings touching the same effect group (independent SGR table in contracts/spec.py); invariant '
+                       'preserved; no-op cases; clear_formatting.',
+        'trusted_base': ['representation invariant wf (contracts/spec.py) over-approximates reachable values',
+                         'SGR effect-group table in contracts/spec.py (written from ECMA-48, checked against the library tables in group T1)'],
+        'assumptions': [],
+    },
+}
